@@ -356,6 +356,7 @@ type foCase struct {
 	FailPct  int               `json:"builder_fail_pct"`
 	SlowBuilds bool            `json:"slow_builds"`
 	NilValues  bool            `json:"nil_values"`
+	HostileExpireAllAt int64   `json:"hostile_expireall_at_callout,omitempty"`
 	Seed     int64             `json:"seed"`
 }
 
@@ -483,13 +484,14 @@ func (c *foCase) run() *foExec {
 	slow := c.SlowBuilds
 	r.script = func(key, inv int) buildOutcome {
 		h := mix64(seed ^ uint64(key+1)*0x9E3779B97F4A7C15 ^ uint64(inv+1)*0xC2B2AE3D27D4EB4F)
-		out := buildOutcome{OK: h%100 >= failPct, CtxErr: (h>>9)%3 == 0, Nil: c.NilValues && (h>>13)%2 == 0}
+		out := buildOutcome{OK: h%100 >= failPct, CtxErr: (h>>9)%3 == 0, NotFound: (h>>9)%3 == 1, Nil: c.NilValues && (h>>13)%2 == 0}
 		if slow {
 			out.Sleep = 3 * time.Millisecond
 		}
 		return out
 	}
 	r.faultAt, r.faultOps = c.FaultAt, c.FaultOps
+	r.hostileAt = c.HostileExpireAllAt
 	if !c.Steered {
 		r.holdMax = 300 * time.Microsecond
 	}
